@@ -102,6 +102,11 @@ def correspondence(ctx):
     rng = ctx.rng("c18", "conan")
     for _ in range(m):
         s = ".".join(str(rng.choice([0, 0, 1, 2, 9, 10, 120])) for _ in range(rng.randint(1, 4)))
+        if rng.random() < 0.15:
+            # an item that is a word or a word with a number (the helpers refuse to bump it: a declared refusal)
+            items = s.split(".")
+            items[rng.randrange(len(items))] = rng.choice(["rc9", "b99", "rc1", "a", "beta9", "x19", "9a"])
+            s = ".".join(items)
         if rng.random() < 0.3:
             s += "-" + rng.choice(["alpha", "rc.1", "pre", "1"])
         if rng.random() < 0.2:
@@ -115,6 +120,9 @@ def correspondence(ctx):
                 why = None if ok else "upper_bound=%s bump=%s" % (u, b)
             except Exception as e:  # noqa: BLE001
                 why = "raises %s" % type(e).__name__
+                if type(e).__name__ == "ConanException" and not s.replace(".", "").replace("-", "").replace("+", "").isdigit() \
+                        and not all(x.isdigit() for x in s.partition("-")[0].partition("+")[0].split(".")):
+                    why = None          # a word item cannot be bumped: the helper says so with its declared error
             if why:
                 ctx.disagree("conan", "%s @%d" % (s, i), why, "v < upper_bound < bump", True,
                              {"scheme": "conan", "version": s, "index": i, "clause": why}, spec="bracketing")
